@@ -11,6 +11,7 @@ import (
 	"path/filepath"
 	"sort"
 	"strings"
+	"syscall"
 
 	"github.com/wkhere/bcl"
 
@@ -421,6 +422,66 @@ var subC18Misc = &fw.Sub{Name: "c18.misc", New: func() fw.Case { return &c18Misc
 			return fw.Failf("-h prints the usage and exits 0", "status %d stdout %q", r.code, r.stdout)
 		}
 		fw.TallyOutcome("help")
+	case "special-files":
+		// FILE need not be a regular file: /dev/stdin, /dev/null, a FIFO; a FILE whose path is longer than 255 bytes;
+		// BFILE of --bload and --bdump being the same file
+		want := runCLI(dir, "", "ok.bcl")
+		if want.code != 0 {
+			return fw.Failf("bcl ok.bcl succeeds", "status %d %q", want.code, want.stderr)
+		}
+		if r := runCLI(dir, c18Progs["ok"], "/dev/stdin"); r.stdout != want.stdout || r.code != 0 {
+			return fw.Failf("bcl /dev/stdin reads the piped program: "+fw.Trunc(want.stdout, 200), "status %d %q %q", r.code, fw.Trunc(r.stdout, 200), fw.Trunc(r.stderr, 200))
+		}
+		empty := runCLI(dir, "", "empty.bcl")
+		if r := runCLI(dir, "", "/dev/null"); r.stdout != empty.stdout || r.code != empty.code {
+			return fw.Failf(fmt.Sprintf("bcl /dev/null behaves like an empty file: status %d %q", empty.code, empty.stdout), "status %d %q %q", r.code, r.stdout, fw.Trunc(r.stderr, 200))
+		}
+		fifo := filepath.Join(dir, "conf.fifo")
+		if err := syscall.Mkfifo(fifo, 0o600); err == nil {
+			go func() {
+				if w, err := os.OpenFile(fifo, os.O_WRONLY, 0); err == nil {
+					w.WriteString(c18Progs["ok"])
+					w.Close()
+				}
+			}()
+			if r := runCLI(dir, "", "conf.fifo"); r.stdout != want.stdout || r.code != 0 {
+				// make sure the writer goroutine is not left blocked
+				if rf, err := os.OpenFile(fifo, os.O_RDONLY|syscall.O_NONBLOCK, 0); err == nil {
+					rf.Close()
+				}
+				return fw.Failf("bcl conf.fifo (a named pipe) reads the program: "+fw.Trunc(want.stdout, 200), "status %d %q %q", r.code, fw.Trunc(r.stdout, 200), fw.Trunc(r.stderr, 200))
+			}
+		}
+		// a FILE path longer than 255 bytes, dumped and loaded again
+		deep := dir
+		rel := ""
+		for i := 0; i < 5; i++ {
+			seg := strings.Repeat(string(rune('a'+i)), 60)
+			deep = filepath.Join(deep, seg)
+			rel = filepath.Join(rel, seg)
+		}
+		if err := os.MkdirAll(deep, 0o755); err == nil {
+			os.WriteFile(filepath.Join(deep, "conf.bcl"), []byte(c18Progs["ok"]), 0o644)
+			long := filepath.Join(rel, "conf.bcl")
+			d := runCLI(dir, "", "--bdump=long.bcb", long)
+			l := runCLI(dir, "", "--bload", "long.bcb")
+			if d.code != 0 || d.stdout != want.stdout || l.stdout != d.stdout || l.code != d.code {
+				return fw.Failf(fmt.Sprintf("a FILE path of %d bytes: --bdump then --bload reproduce %q", len(long), fw.Trunc(want.stdout, 200)),
+					"dump: status %d %q %q; load: status %d %q %q", d.code, fw.Trunc(d.stdout, 100), fw.Trunc(d.stderr, 200), l.code, fw.Trunc(l.stdout, 100), fw.Trunc(l.stderr, 200))
+			}
+		}
+		// load from and dump to the same BFILE
+		runCLI(dir, "", "--bdump=same.bcb", "ok.bcl")
+		before, _ := os.ReadFile(filepath.Join(dir, "same.bcb"))
+		for _, argv := range [][]string{{"--bload", "same.bcb", "--bdump=same.bcb"}, {"--bdump=same.bcb", "--bload", "same.bcb"}} {
+			r := runCLI(dir, "", argv...)
+			after, _ := os.ReadFile(filepath.Join(dir, "same.bcb"))
+			if r.code != 0 || r.stdout != want.stdout || !bytes.Equal(before, after) {
+				return fw.Failf(fmt.Sprintf("bcl %v loads the file, runs it and writes the same dump back", argv), "status %d %q %q; file %d -> %d bytes", r.code, fw.Trunc(r.stdout, 200), fw.Trunc(r.stderr, 200), len(before), len(after))
+			}
+		}
+		fw.Tally("process_runs", 10)
+		fw.TallyOutcome("exit-0")
 	case "stdin-offset":
 		// standard input is a file the caller has already read a part of: the tool processes what is left
 		for _, argv := range [][]string{{}, {"-"}, {"-r", "-"}} {
@@ -593,7 +654,7 @@ func init() {
 			for _, u := range []string{"usage:-x", "usage:--foo", "usage:-d1 ok.bcl", "usage:ok.bcl parse.bcl", "usage:--bdump", "usage:--bdump -", "usage:--bdumpx ok.bcl",
 				"usage:--bload=ok.bcb ok.bcl", "usage:-dx ok.bcl", "usage:ok.bcl -d --nope", "help:-h", "help:-d -h", "help:ok.bcl -h -x", "help:-dh",
 				"io:nonexistent.bcl", "io:adir", "io:--bload nonexistent.bcb", "io:--bdump=adir/x/y.bcb ok.bcl", "io:--bload ok.bcl", "io:--bdump=/dev/full ok.bcl", "io:--bdump=/dev/full empty.bcl",
-				"bdump:ok", "bdump:runtime", "bdump:parse", "bdump:empty", "stdin-offset:"} {
+				"bdump:ok", "bdump:runtime", "bdump:parse", "bdump:empty", "stdin-offset:", "special-files:"} {
 				c.Do(subC18Misc, &c18Misc{Name: u})
 			}
 			// level 1
